@@ -390,9 +390,9 @@ class Runner:
         srcs = [os.path.join(VERIF, "harness", self.pid, ob.src), rc_path] + \
                [os.path.join(VERIF, s) for s in ob.extra_src] + \
                [os.path.join(REPO, u) for u in units]
-        exe = os.path.join(d, "replay")
+        exe = os.path.join(self.replay_dir, safe + ".replay.exe")
         cmd = ["gcc", "-std=gnu11", "-O0", "-g", "-w", "-fsanitize=address,undefined",
-               "-fno-sanitize-recover=undefined", "-o", exe] + srcs + flags + ["-lpthread"]
+               "-fno-sanitize-recover=undefined", "-o", exe] + srcs + flags + ["-lpthread", "-Wl,--unresolved-symbols=ignore-all", "-no-pie", "-fno-pie"]
         r = sh(cmd)
         script = os.path.join(self.replay_dir, safe + ".replay.sh")
         with open(script, "w") as fh:
